@@ -40,7 +40,7 @@ ASSUMPTIONS = [
 ]
 
 
-EXPECTED_PROBES = ['negative_identifiers', 'file_of_several_hundred_kib', 'binary_file_replaced_at_same_path', 'split_input_not_plain_float64_c_order', 'caller_overwrote_split_outputs', 'all_three_formats_compared', 'empty_first_set', 'empty_second_set', 'float_and_exact_floor_differ', 'gap_labels_rejected', 'ids_beyond_float32_exact_range', 'ids_differ_from_row_numbers', 'pct_times_n_is_an_integer', 'single_sample_file_loaded', 'split_reissued_after_prng_perturbation', 'three_or_more_classes']
+EXPECTED_PROBES = ['integer_percentage', 'negative_identifiers', 'file_of_several_hundred_kib', 'binary_file_replaced_at_same_path', 'split_input_not_plain_float64_c_order', 'caller_overwrote_split_outputs', 'all_three_formats_compared', 'empty_first_set', 'empty_second_set', 'float_and_exact_floor_differ', 'gap_labels_rejected', 'ids_beyond_float32_exact_range', 'ids_differ_from_row_numbers', 'pct_times_n_is_an_integer', 'single_sample_file_loaded', 'split_reissued_after_prng_perturbation', 'three_or_more_classes']
 
 SLOW_ARMS = ("big",)
 
@@ -120,10 +120,12 @@ def gen_case(rng, arm, tier, k=0):
                 ops.append(list(rng.choice(splits)))  # re-issue an earlier call
             else:
                 pr = rng.random()
-                if pr < 0.15:
+                if pr < 0.12:
                     pct = 0.0
-                elif pr < 0.3:
+                elif pr < 0.24:
                     pct = 1.0
+                elif pr < 0.30:
+                    pct = ["int", rng.choice((0, 1))]  # the percentages 0 and 1 passed as integers
                 elif pr < 0.6:
                     pct = rng.randint(0, n) / n
                 elif pr < 0.75:
@@ -343,7 +345,11 @@ def run_case(case):
                 norm.append((kop, fmt))
             elif kop == "parse_gap":
                 out.steps += 1
-                gap = np.hstack([np.arange(n).reshape(n, 1), (Y + (Y >= K - 1) * op[1]).reshape(n, 1), X]).astype(np.float64)
+                if op[1] == 3 and K >= 2:
+                    bad = Y - 1  # -1, 0, .., K-2: as many distinct labels as max+2, not starting at 0
+                else:
+                    bad = Y + (Y >= K - 1) * op[1]
+                gap = np.hstack([np.arange(n).reshape(n, 1), bad.reshape(n, 1), X]).astype(np.float64)
                 try:
                     res = B.parser.parse_loader(gap)
                     raised = False
@@ -357,10 +363,13 @@ def run_case(case):
             elif kop in ("split", "split_with_index"):
                 out.steps += 1
                 pct, seed = op[1], op[2]
+                if isinstance(pct, list):
+                    pct = int(pct[1]) if seed % 2 else np.int64(pct[1])
+                    bump(out.probes, "integer_percentage")
                 fn = B.splitter.split if kop == "split" else B.splitter.split_with_index
                 res = lib_call(kop, fn, caller_x(), Y.copy(), pct, seed)
                 canon = check_split(kop, pct, seed, res, k)
-                key = (kop, repr(pct), seed)
+                key = (kop, repr(float(pct)), seed)
                 reissued = key in split_seen
                 if key in split_seen:
                     prev, when = split_seen[key]
